@@ -70,19 +70,34 @@ class _Future(Future):
                 return True
             if self.done():
                 return False
-            if not self._me_cancel():
-                return False
+            cancelled_work = self._me_cancel()
             if self.cancelled():
-                # A callback run while cancelling the underlying work has
-                # re-entered cancel() on this thread and completed it
-                # (waiters notified, callbacks invoked): nothing left to do.
+                # Cancelling the underlying work has synchronously run
+                # callbacks which have already cancelled this future
+                # (waiters notified, callbacks invoked): nothing left to do,
+                # whatever the subclass answered.
                 return True
+            if not cancelled_work:
+                return False
             out = super(_Future, self).cancel()
             if out:
                 self.set_running_or_notify_cancel()
         if out:
             self._me_invoke_callbacks()
         return out
+
+    def _me_cancel_with_delegate(self):
+        # To be called when the future we depend on turned out to have been
+        # cancelled by someone else: end cancelled too (rather than staying
+        # pending forever), without asking the subclass to cancel anything.
+        with self._me_lock:
+            if self.done():
+                return
+            out = super(_Future, self).cancel()
+            if out:
+                self.set_running_or_notify_cancel()
+        if out:
+            self._me_invoke_callbacks()
 
     def _me_cancel(self):
         raise NotImplementedError(
